@@ -12,4 +12,5 @@ class IfErrorControlConstructionTokenTranslator(AbstractTranslator):
         condition = ExpressionTokenTranslator.translate(token.condition, excel, context)
         when_error = ExpressionTokenTranslator.translate(token.when_error, excel, context)
 
-        return f'self._iferror(lambda: {condition}, {when_error})'
+        # both arguments are passed as functions: the fallback is calculated only when the first argument fails
+        return f'self._iferror(lambda: {condition}, lambda: {when_error})'
